@@ -40,6 +40,7 @@ var (
 type Program struct {
 	Target  Target
 	Repo    string
+	ModPath string
 	Fset    *token.FileSet
 	Pkgs    []*packages.Package // module packages, sorted by path
 	ByPath  map[string]*packages.Package
@@ -59,6 +60,11 @@ type Program struct {
 
 // Load loads ./... of repo for target. Any type error is a hard failure.
 func Load(repo string, t Target) (*Program, error) {
+	return LoadModule(repo, ModulePath, t)
+}
+
+// LoadModule loads ./... of the module rooted at dir whose import path (prefix) is modPath.
+func LoadModule(repo, modPath string, t Target) (*Program, error) {
 	env := []string{}
 	for _, kv := range os.Environ() {
 		k := kv
@@ -99,16 +105,16 @@ func Load(repo string, t Target) (*Program, error) {
 		}
 		return nil, fmt.Errorf("load %s: type/load errors:\n  %s", t, strings.Join(errs, "\n  "))
 	}
-	p := &Program{Target: t, Repo: repo, ByPath: map[string]*packages.Package{}, SSAPkgs: map[string]*ssa.Package{}}
+	p := &Program{Target: t, Repo: repo, ModPath: modPath, ByPath: map[string]*packages.Package{}, SSAPkgs: map[string]*ssa.Package{}}
 	sort.Slice(pkgs, func(i, j int) bool { return pkgs[i].PkgPath < pkgs[j].PkgPath })
 	for _, pk := range pkgs {
-		if pk.PkgPath == ModulePath || strings.HasPrefix(pk.PkgPath, ModulePath+"/") {
+		if pk.PkgPath == modPath || strings.HasPrefix(pk.PkgPath, modPath+"/") {
 			p.Pkgs = append(p.Pkgs, pk)
 			p.ByPath[pk.PkgPath] = pk
 		}
 	}
 	if len(p.Pkgs) == 0 {
-		return nil, fmt.Errorf("load %s: no packages of module %s under %s", t, ModulePath, repo)
+		return nil, fmt.Errorf("load %s: no packages of module %s under %s", t, modPath, repo)
 	}
 	p.Fset = pkgs[0].Fset
 	prog, _ := ssautil.AllPackages(pkgs, ssa.InstantiateGenerics)
@@ -162,7 +168,7 @@ func (p *Program) InModule(fn *ssa.Function) bool {
 		}
 	}
 	path := pk.Pkg.Path()
-	return path == ModulePath || strings.HasPrefix(path, ModulePath+"/")
+	return path == p.ModPath || strings.HasPrefix(path, p.ModPath+"/")
 }
 
 // SrcFuncs returns all source functions of the module (declared functions, methods and
@@ -236,7 +242,7 @@ func (p *Program) Pos(pos token.Pos) string {
 
 // Pkg returns the types.Package for a module-relative path ("" = root, "keyvalue", …).
 func (p *Program) Pkg(rel string) *packages.Package {
-	path := ModulePath
+	path := p.ModPath
 	if rel != "" {
 		path += "/" + rel
 	}
@@ -245,7 +251,7 @@ func (p *Program) Pkg(rel string) *packages.Package {
 
 // SSAPkg returns the SSA package for a module-relative path.
 func (p *Program) SSAPkg(rel string) *ssa.Package {
-	path := ModulePath
+	path := p.ModPath
 	if rel != "" {
 		path += "/" + rel
 	}
